@@ -774,6 +774,8 @@ func init() {
 		NotDecided:  "That an accepted definition's codec obeys the other properties (that is C01-C19); unknown tag options on composite kinds are silently ignored (not a crash, not claimed).",
 		Assumptions: []string{"A1", "A5"},
 		Run: func(c *Ctx) {
+			// round 13: a map of maps is refused whatever the registry holds
+			ruleMapValueRefused(c)
 			// round 11: the lookup key is (type, tag) as given; no descriptor is taken from a codec under construction
 			ruleRegistryKey(c)
 			ruleBuildNoDescriptor(c)
